@@ -3,4 +3,4 @@
 From Coq Require Import ZArith ExtrOcamlBasic.
 Require Import ZV.Model.Symtab.
 Extraction "model.ml" Z.add Z.mul Z.opp Z.div_eucl Z.of_nat Z.to_nat Z.compare
-  run step inv_check compare_symbol hash_symbol spec_check spec_accepts name_eqb itoa lookup_name.
+  run step inv_check compare_symbol compare_symbols hash_symbol spec_check spec_accepts name_eqb itoa lookup_name.
